@@ -72,6 +72,7 @@ type Contract struct {
 	Trusted  string // non-empty: body not verified; the text is the reason
 	Pure     bool
 	NoAlloc  bool
+	Wraps    bool // fixed-width integer arithmetic in this function may wrap around (modelled, no overflow obligations)
 	Ghosts   []*GhostVar
 	Loops    map[int]*LoopSpec
 	Ats      []*AtSpec
@@ -140,7 +141,7 @@ var clauseKeywords = map[string]bool{
 	"import": true, "const": true, "spec": true, "axiom": true, "lemma": true, "induction": true, "uses": true,
 	"ghost": true, "dropped": true, "opaque": true, "globalinv": true, "func": true, "extern": true, "interface": true, "params": true,
 	"results": true, "requires": true, "profile": true, "ensures": true, "modifies": true,
-	"trusted": true, "loop": true, "invariant": true, "at": true, "pure": true, "noalloc": true,
+	"trusted": true, "loop": true, "invariant": true, "at": true, "pure": true, "noalloc": true, "wraps": true,
 	"profiles": true, "free": true, "sameas": true, "sortspec": true, "inline": true, "lemmas": true,
 }
 
@@ -452,6 +453,8 @@ func readContractFile(path string, pkgPath string) (*ContractFile, error) {
 				cur.Inline = true
 			case "noalloc":
 				cur.NoAlloc = true
+			case "wraps":
+				cur.Wraps = true
 			case "sameas":
 				cur.SameAs = strings.TrimSpace(rc.text)
 			case "lemmas":
@@ -498,8 +501,20 @@ func readContractFile(path string, pkgPath string) (*ContractFile, error) {
 						f = []string{f[0], g[0], g[1]}
 					}
 				}
+				if len(f) == 3 && f[1] == "invariant" {
+					if curLoop == nil {
+						return nil, fail(rc, "invariant outside loop")
+					}
+					c, err := mkClause(rc, strings.TrimSpace(f[2]))
+					if err != nil {
+						return nil, err
+					}
+					c.Profile = f[0]
+					curLoop.Invs = append(curLoop.Invs, c)
+					break
+				}
 				if len(f) != 3 || (f[1] != "requires" && f[1] != "ensures") {
-					return nil, fail(rc, "profile <name> [free] requires|ensures expr")
+					return nil, fail(rc, "profile <name> [free] requires|ensures|invariant expr")
 				}
 				c, err := mkClause(rc, strings.TrimSpace(f[2]))
 				if err != nil {
